@@ -46,11 +46,12 @@ type Plan struct {
 
 // Event mirrors T0 of TcpProps.tla.
 type Event struct {
-	K    string   `json:"k"`
-	Env  int      `json:"env"`
-	Res  string   `json:"res"`
-	Used int      `json:"used"`
-	Segs [][3]int `json:"segs"`
+	K     string   `json:"k"`
+	Env   int      `json:"env"`
+	Res   string   `json:"res"`
+	Used  int      `json:"used"`
+	Asked int      `json:"asked"` // the largest single read the receive asked the connection for
+	Segs  [][3]int `json:"segs"`
 }
 
 type Case struct {
@@ -181,6 +182,7 @@ type readConn struct {
 	data   []byte
 	pos    int
 	used   int
+	asked  int
 	note   string
 	calls  int
 	cancel func() // ends the context of the Receive in progress
@@ -190,6 +192,9 @@ func (c *readConn) Read(p []byte) (int, error) {
 	c.calls++
 	if c.calls > 200 {
 		return 0, errors.New("faultconn: too many read calls")
+	}
+	if len(p) > c.asked {
+		c.asked = len(p)
 	}
 	rem := len(c.data) - c.pos
 	var st Step
@@ -370,6 +375,7 @@ func Replay(c Case) (res Result) {
 	failed := false
 	for i := 0; i < len(c.Cfg.Lens)+4; i++ {
 		rc.used = 0
+		rc.asked = 0
 		rctx := newManualCtx()
 		endWith := context.DeadlineExceeded
 		if c.N%2 == 1 {
@@ -378,14 +384,14 @@ func Replay(c Case) (res Result) {
 		rc.cancel = func() { rctx.end(endWith) }
 		e, err := rcv.Receive(rctx)
 		if err != nil {
-			res.Actual = append(res.Actual, Event{K: "recv", Res: "err", Used: rc.used, Segs: [][3]int{}})
+			res.Actual = append(res.Actual, Event{K: "recv", Res: "err", Used: rc.used, Asked: rc.asked, Segs: [][3]int{}})
 			if failed {
 				break // the one retry after a failure
 			}
 			failed = true
 			continue
 		}
-		res.Actual = append(res.Actual, Event{K: "recv", Res: "ok", Env: envOf(e), Used: rc.used, Segs: [][3]int{}})
+		res.Actual = append(res.Actual, Event{K: "recv", Res: "ok", Env: envOf(e), Used: rc.used, Asked: rc.asked, Segs: [][3]int{}})
 		if failed {
 			break
 		}
